@@ -23,7 +23,10 @@ def make_handler(mod):
     def handler(job, ctx):
         kind = job["kind"]
         if kind == "run":
-            trace = mod.generate(job["seed"], job["tier"], job["index"])
+            if mod.generate.__code__.co_argcount >= 4:
+                trace = mod.generate(job["seed"], job["tier"], job["index"], job.get("batch_seed"))
+            else:
+                trace = mod.generate(job["seed"], job["tier"], job["index"])
             res = mod.execute(trace, ctx)
             if "executed_ops" in res:  # ops appended at run time (directed probes) become part of the explicit trace
                 trace = dict(trace, ops=res.pop("executed_ops"), dynamic=False)
@@ -202,7 +205,7 @@ def run_check(prop, tier, batch_seed=None, workers=None, runs=None, budget=None,
             for i in range(cfg["runs"]):
                 if state["stop_after"] is not None and i >= state["stop_after"]:
                     return
-                yield {"kind": "run", "index": i, "tier": tier, "seed": derive_seed(batch_seed, prop, i),
+                yield {"kind": "run", "index": i, "tier": tier, "seed": derive_seed(batch_seed, prop, i), "batch_seed": batch_seed,
                        "want_trace": i < 3}
 
         retry = []
@@ -344,7 +347,7 @@ def determinism_selftest(farm, mod, prop, tier, batch_seed, harness_errors, n=16
     """Same seed twice (different zygotes by construction of the farm's scheduling) => same digest.
     With cross=True additionally in a new interpreter with another PYTHONHASHSEED and 4 workers."""
     def pass_():
-        jobs = [{"kind": "run", "index": i, "tier": tier, "seed": derive_seed(batch_seed, prop, i)} for i in range(n)]
+        jobs = [{"kind": "run", "index": i, "tier": tier, "seed": derive_seed(batch_seed, prop, i), "batch_seed": batch_seed} for i in range(n)]
         out = {}
         for job, res in farm.run(jobs, mod.RUN_TIMEOUT * 2):
             out[job["index"]] = res.get("digest", res.get("harness_error"))
@@ -382,7 +385,7 @@ def digests_only(prop, tier, n, batch_seed, workers):
             ctx = mod.prepare(farm, batch_seed, tier, cfg, errs)
             if ctx is not None:
                 farm.set_context(ctx)
-        jobs = [{"kind": "run", "index": i, "tier": tier, "seed": derive_seed(batch_seed, prop, i)} for i in range(n)]
+        jobs = [{"kind": "run", "index": i, "tier": tier, "seed": derive_seed(batch_seed, prop, i), "batch_seed": batch_seed} for i in range(n)]
         out = {}
         for job, res in farm.run(jobs, mod.RUN_TIMEOUT * 2):
             out[job["index"]] = res.get("digest", res.get("harness_error"))
